@@ -137,8 +137,12 @@ Definition sync_obs : Type := list N * bool * bool * list (N * N) * bool * bool 
 Definition sync_truth : Type := bool * bool * N * list N * bool * bool.
 (* own tip height, height of the received block, number of validators, current slot - finalized slot; chain before,
    temp blocks (height, code) before, finalized height, peer's common-block answer, delivered blocks, ending (0 ok,
-   1 error, 2 statelessly invalid block), valid links (parent, block), ground truth, observation *)
-Definition sync_case : Type := N * N * N * Z * list N * list (N * N) * N * option N * list N * N * list (N * N) * sync_truth * sync_obs.
+   1 error, 2 statelessly invalid block), valid links (parent, block), finalized height after each block (block code,
+   height): the node's stored finalized height as a function of the chain, ground truth, observation *)
+Definition sync_case : Type := N * N * N * Z * list N * list (N * N) * N * option N * list N * N * list (N * N) * list (N * N) * sync_truth * sync_obs.
+
+Fixpoint lookup_fin (b : N) (l : list (N * N)) : N :=
+  match l with [] => 0 | (k, v) :: r => if k =? b then v else lookup_fin b r end.
 
 Definition link_valid (links : list (N * N)) (c : list N) (b : N) : bool :=
   match rev c with
@@ -156,16 +160,17 @@ Definition oN_eqb (a b : option N) : bool :=
   match a, b with Some x, Some y => x =? y | None, None => true | _, _ => false end.
 
 Definition check_sync (k : sync_case) : N :=
-  let '(own_h, block_h, nv, gap, before, temp0, fin, common, delivered, e, links, tr, o) := k in
+  let '(own_h, block_h, nv, gap, before, temp0, fin, common, delivered, e, links, finat, tr, o) := k in
   let '(honest, better, fork_h, peerchain, sender_is_best, gen_val) := tr in
   let '(after, banned_o, err_o, temp_o, lowdel, dbeq, pen_own, pen_peer) := o in
   let n0 := {| chain := before; temp := map (fun kv => (N.to_nat (fst kv), snd kv)) temp0; finalized := N.to_nat fin; banned := false |} in
   let en := match e with 0 => EndOk | 1 => EndErr | _ => EndInvalid end in
+  let finality := fun (c : list N) => match rev c with b :: _ => N.to_nat (lookup_fin b finat) | [] => 0%nat end in
   let r2 := 2 * nv in
   let m := choose_sync own_h block_h nv gen_val gap in
   let '(n', out) := match m with
-                    | MFast => fast_sync (link_valid links) false true n0 common delivered en (N.to_nat block_h) (N.to_nat r2)
-                    | MBlock => block_sync (link_valid links) n0 common delivered en
+                    | MFast => fast_sync (link_valid links) finality false true true n0 common delivered en (N.to_nat block_h) (N.to_nat r2)
+                    | MBlock => block_sync (link_valid links) finality n0 common delivered en
                     | MNone => (n0, Synced)            (* "Sync method cannot be determined": nil, nothing done *)
                     end in
   let synced := match out with Synced => true | _ => false end in
@@ -200,7 +205,7 @@ Definition check_sync (k : sync_case) : N :=
      fork point is not below the finalized height and a sync mechanism applies => the node ends on that chain *)
   let close := (abs_diff own_h block_h <=? r2) && gen_val in
   let applies :=
-    if close then sender_is_best && (own_h <=? fork_h + r2 - 2) && (block_h <=? fork_h + r2)
+    if close then sender_is_best && (own_h <=? fork_h + r2) && (block_h <=? fork_h + r2)
     else (3 * Z.of_N nv <? gap)%Z in
   let spec2 := negb (honest && better && (fin <=? fork_h) && applies) || (list_eqb after peerchain && negb err_o) in
   (* clause 3: an honest peer serving valid blocks within the protocol's own request pace accrues no penalty, and neither
